@@ -188,7 +188,7 @@ fn mutate_tokens(ctx: &mut Ctx, s: &str) -> String {
         4 => { let p = char_pos(ctx, s); let set = if ctx.rng.chance(1, 2) { OPEN } else { CLOSE }; out.insert(p, *ctx.rng.pick(set)); }
         5 => {
             // deep nesting (around the limit of 24 and far beyond)
-            let n = *ctx.rng.pick(&[5usize, 20, 23, 24, 25, 26, 40, 200, 3000]);
+            let n = *ctx.rng.pick(&[5usize, 12, 15, 16, 17, 18, 24, 25, 40, 200, 3000]);
             let c = *ctx.rng.pick(OPEN);
             let p = char_pos(ctx, s);
             let balanced = ctx.rng.chance(1, 2);
@@ -252,6 +252,37 @@ fn one_case(ctx: &mut Ctx, src: &str, budget: Duration) {
     ctx.case(&format!("f {}", ps.iter().map(|p| p.to_string()).collect::<Vec<_>>().join(" ")), &f.unwrap_or_else(|_| "PANIC".into()));
 }
 
+/// `ts <year> <month> <day> <seconds of day> <tz hours> => <nanoseconds | PANIC>`: timestamp literals with any
+/// digits the grammar admits, through `helpers::parse_timestamp`
+fn ts_cases(ctx: &mut Ctx) {
+    let n = if ctx.thorough { 20000 } else { 1500 };
+    ctx.directive("new timestamps");
+    for _ in 0..n {
+        let y = match ctx.rng.below(6) { 0 => 1970, 1 => ctx.rng.range(0, 9999), 2 => ctx.rng.range(1960, 2040), 3 => 9999, 4 => 0, _ => ctx.rng.range(2200, 2300) };
+        let m = if ctx.rng.chance(3, 4) { ctx.rng.range(1, 12) } else { ctx.rng.range(0, 99) };
+        let d = if ctx.rng.chance(3, 4) { ctx.rng.range(1, 31) } else { ctx.rng.range(0, 99) };
+        let mut text = format!("@{:04}-{:02}-{:02}", y, m, d);
+        let mut tod = 0i64;
+        let mut tz = 0i64;
+        if ctx.rng.chance(2, 3) {
+            let (h, mi, s) = (ctx.rng.range(0, 99), ctx.rng.range(0, 99), ctx.rng.range(0, 99));
+            tod = h * 3600 + mi * 60 + s;
+            text.push_str(&format!("T{:02}:{:02}:{:02}", h, mi, s));
+            let (th, tm) = (ctx.rng.range(0, 99), ctx.rng.range(0, 99));
+            match ctx.rng.below(4) {
+                0 => text.push('Z'),
+                1 => { tz = th; text.push_str(&format!("+{:02}:{:02}", th, tm)); }
+                2 => { tz = -th; text.push_str(&format!("-{:02}:{:02}", th, tm)); }
+                _ => {}
+            }
+        }
+        ctx.count(if m == 0 || m > 12 || d == 0 { "ts.out-of-calendar" } else { "ts.calendar" });
+        let t2 = text.clone();
+        let r = catch(move || varpulis_parser::helpers::parse_timestamp(&t2));
+        ctx.case(&format!("ts {} {} {} {} {}", y, m, d, tod, tz), &match r { Ok(v) => v.to_string(), Err(_) => "PANIC".to_string() });
+    }
+}
+
 pub fn run(ctx: &mut Ctx, _name: &str) {
     std::panic::set_hook(Box::new(|info| {
         let at = info.location().map(|l| format!("{}:{}", l.file().rsplit('/').next().unwrap_or(""), l.line())).unwrap_or_else(|| "?".into());
@@ -291,10 +322,12 @@ pub fn run(ctx: &mut Ctx, _name: &str) {
     for w in [
         "fn f():\n  return (", "for i in 0..50:\n    stream S{i} = T\n@@@\n", "for i in 0..=9223372036854775807:\n    x{i}\n",
         "for i in -9223372036854775808..9223372036854775807:\n    x\n", "for i in 0..2:\n x{i}\n\u{3000}y{i}\n", "stream S = T .where(t > @2024-13-01)\n",
-        "stream S = T .where(t > @2024-01-00)\n", "let z = (-9223372036854775807 - 1) / -1\n", "\u{e9}\u{e9}\u{e9}\nstream = \n", "",
+        "stream S = T .where(t > @2024-01-00)\n", "let z = (-9223372036854775807 - 1) / -1\n",
+        "event H:\n    zone: [[[[[[[[[[[[[[[[[[[[[[[[1]]]]]]]]]]]]]]]]]]]]]]]]str\n", "event H:\n    zone: [[[[[[[[[[[[[[[[1]]]]]]]]]]]]]]]]str\n", "\u{e9}\u{e9}\u{e9}\nstream = \n", "",
     ] {
         ctx.directive("new witness");
-        one_case(ctx, w, Duration::from_secs(60));
+        // the deep-nesting witnesses must be rejected quickly; everything else gets a generous budget
+        one_case(ctx, w, Duration::from_secs(if w.contains("[[[[[[[[") { 8 } else { 60 }));
     }
     // expansion budget: one loop asking for more than MAX_EXPANDED_LINES at once (rejected without work) …
     ctx.directive("new witness-budget");
@@ -306,6 +339,7 @@ pub fn run(ctx: &mut Ctx, _name: &str) {
         ctx.directive("new witness-nested-budget");
         one_case(ctx, "for a in 0..10000:\n for b in 0..10000:\n  for c in 0..10000:\n   x{a}{b}{c}\n", Duration::from_secs(300));
     }
+    ts_cases(ctx);
     let n = if ctx.thorough { 12000 } else { 1200 };
     for it in 0..n {
         ctx.directive(&format!("new m{}", it));
